@@ -91,7 +91,18 @@ def _valid_property(sim):
     # sprinkle numeric constants (the serializer must null every non-finite float anywhere)
     if sim.coin('const', 0.45):
         c = sim.pick('constname', CONSTS)
-        extra = ('bin', sim.pick('cop', ('<', '>', '=', '!=')), ('field', 'x'), ('const', c))
+        c2 = sim.pick('constname2', CONSTS)
+        where = sim.choose('constpos', 6)
+        if where == 0:
+            extra = ('bin', 'in', ('field', 'x'), ('range', ('un', '-', ('const', c)), ('const', c2), sim.coin('cx', 0.3), False))
+        elif where == 1:
+            extra = ('bin', 'in', ('field', 'x'), ('set', [('const', c), ('lit', 'num', '1'), ('un', '-', ('const', c2))]))
+        elif where == 2:
+            extra = ('bin', '>', ('call', 'abs', ('bin', '*', ('field', 'x'), ('un', '-', ('const', c)))), ('lit', 'num', '0'))
+        elif where == 3:
+            extra = ('quant', 'forall', 'i', ('set', [('const', c), ('const', c2)]), ('bin', '<=', ('var', 'i'), ('field', 'x')))
+        else:
+            extra = ('bin', sim.pick('cop', ('<', '>', '=', '!=')), ('field', 'x'), ('const', c))
         kind, trig, beh, bound = p['pattern']
 
         def add(ev):
@@ -105,7 +116,12 @@ def _valid_property(sim):
 
 def _invalid_text(sim, base):
     k = sim.weighted('invkind', [(3, 'syntax'), (2, 'type'), (2, 'sanity'), (1.5, 'unknownfun'), (1.5, 'dupmeta'),
-                                 (1, 'empty'), (1, 'unicode')])
+                                 (1, 'empty'), (1, 'unicode'), (2.5, 'later_invalid')])
+    if k == 'later_invalid':
+        # valid properties first, the offending one last (or in the middle)
+        bad = sim.pick('badprop', ('globally: no', 'globally: no a { (x + True) > 1 }', 'globally: no a { x > @Z.x }',
+                                   'globally: no a { foo(x) > 1 }', '# id: p1\n# id: p2\nglobally: no a', 'after a as M: b as M causes c'))
+        return (base + '\n' + bad + ('\n' + base.split('\n')[-1] if sim.coin('middle', 0.3) else '')), k
     if k == 'syntax':
         return gen.mutate_tokens(sim, base), k
     if k == 'type':
@@ -247,7 +263,7 @@ def run_once(sc, faults):
         itr_spec = faults.get('interrupt')
         want_trace = itr_spec is not None or faults.get('count_events')
         itr = seams.Interrupter(itr_spec['k'] if itr_spec else None, itr_spec['exc'] if itr_spec else 'KeyboardInterrupt',
-                                parts=('/hpl/',))
+                                parts=('/hpl/', '/json/'))
         delivered = {'text': None, 'taken': False}
         orig_step = fs._step
 
@@ -444,7 +460,9 @@ def fault_plans(sc, base, cfg):
                               'label': '%s:%s' % (stream, 'persistent' if persistent else 'transient')})
     # aborted execution
     if base.line_events > 0:
-        ks = {1, base.line_events, sim.randint('k', 1, base.line_events), sim.randint('k2', max(1, base.line_events - 60), base.line_events)}
+        n = base.line_events
+        ks = {1, n, sim.randint('k', 1, n), sim.randint('k2', max(1, n - 60), n), sim.randint('k3', max(1, n - 400), n),
+              max(1, n - sim.randint('k4', 1, 12))}
         for k in sorted(ks):
             plans.append({'interrupt': {'k': k, 'exc': sim.pick('iexc', ('KeyboardInterrupt', 'KeyboardInterrupt', 'MemoryError'))},
                           'label': 'interrupt'})
